@@ -334,7 +334,7 @@ impl Check for C01 {
         "C01"
     }
     fn rule(&self) -> String {
-        "proptest-generated (file layout of data/hole/zero segments sized around multiples of the block size, prior destination absent/shorter/equal/longer with a different non-zero pattern, driver, workers 0..16, block size in {1,2,3,7,512,4095,4096,4097,65536,1MiB,default}, --no-progress, reflink auto/never, single file or tree of 1-5 files); real xcp run; oracle = byte-for-byte comparison of every destination file with its source on exit 0. Non-trivial: exit 0 and size>0 and (>=2 blocks or prior destination or >=1 hole); distinct by hash of the whole case. Thorough adds natural >2GiB files on /dev/shm.".into()
+        "proptest-generated (file layout of data/hole/zero segments sized around multiples of the block size, prior destination absent/shorter/equal/longer with a different non-zero pattern, driver, workers 0..16, block size in {1,2,3,7,512,4095,4096,4097,65536,1MiB,default} or random in 1..2^21, --no-progress, preallocated (fallocate) ranges partly written, huge almost-empty files of 2^31-1..5 GiB apparent size, option noise (--fsync --no-perms --no-timestamps --backup=numbered --ownership -v), reflink auto/never, single file or tree of 1-5 files); real xcp run; oracle = byte-for-byte comparison of every destination file with its source on exit 0. Non-trivial: exit 0 and size>0 and (>=2 blocks or prior destination or >=1 hole); distinct by hash of the whole case. Thorough adds natural >2GiB files on /dev/shm.".into()
     }
     fn assumptions(&self) -> Vec<String> {
         vec!["ext4 sandbox under /tmp; reflink unsupported there (clone success is exercised by C15 through emulation)".into(), "xcp built from /repo working tree with release arithmetic semantics".into()]
